@@ -41,7 +41,7 @@ def _register():
 
 
 HDR_VALUES = ['abc', 42, 2.5, '', 'multi  blank   text', 'semi;colon x', 'br{}ace { } x{']
-NAMES = ['a', 'ab', 'abc', 'flux', 'MyStruct']
+NAMES = ['a', 'ab', 'abc', 'flux', 'MyStruct', 'bc']      # a / ab / abc: beginnings of each other; bc: an ending of abc
 REP_TABLES = [
     {'cols': [['flux', 'i4'], ['c1', 'f8']], 'rows': [[2147483647, 1.0 / 3.0], [-1, float('-inf')]]},
     {'cols': [['c0', 'S'], ['c1', 'i4[2]']], 'rows': [['a b', [1, -2147483648]]]},
